@@ -237,6 +237,26 @@ def _job(kw):
                 got = op.entry(key, pids[p], j)
                 if not O.same(got, rows[p][j]):
                     bad.append((key, pids[p], j, O.diff_text(got, rows[p][j])))
+    # renormalisation-scale consistency of the operator with itself, for every power of the factorisation logarithm (this is inside
+    # the muR part of the quantifier also where the muF content at a^3 is not): a(muR) runs with da/dtR = b0 a^2 + b1 a^3 for
+    # tR = ln(1/xiR^2), so independence of muR order by order gives  i O[k,i,f] = - sum_{k'<k} k' beta_{k-k'-1} O[k',i-1,f]
+    if ren:
+        betas = {0: b0, 1: b1}
+        for key in sorted(op.keys()):
+            k, _, i, f = key
+            if i == 0 or k > 3:
+                continue
+            for p in range(npid):
+                for j in range(n):
+                    rhs = A.Rat.const(0)
+                    for kp in range(1, k):
+                        bi = k - kp - 1
+                        if bi in betas:
+                            rhs = rhs - betas[bi] * kp * A.to_rat(op.entry((kp, 0, i - 1, f), pids[p], j))
+                    ncmp += 1
+                    got = A.to_rat(op.entry(key, pids[p], j)) * i
+                    if not O.same(got, rhs):
+                        bad.append((key, pids[p], j, "muR consistency i O[k,i,f] = -sum k' beta O[k',i-1,f] fails: " + O.diff_text(got, rhs)))
     return ("cmp", ncmp, bad[:3], len(bad), skipped_n3lo, sorted(k for k in exp if (k[2] or k[3])))
 
 
